@@ -5,11 +5,6 @@
 // N8: the generic associated type `AccessMut<'a>` is fixed to `&'a mut T` (true of every plain kind and of
 // FlaggedStorage; DerefFlaggedStorage's deferred wrapper is handled in unit `flagged`).
 
-pub trait BitSetLike {
-    spec fn bview(&self) -> Set<u32>;
-}
-impl BitSetLike for BitSet { spec fn bview(&self) -> Set<u32> { self@ } }
-impl<'a> BitSetLike for &'a BitSet { spec fn bview(&self) -> Set<u32> { (**self)@ } }
 
 pub open spec fn same_has<T, S: UnprotectedStorage<T>>(o: &S, n: &S) -> bool {
     forall|j: Index| #![trigger n.has(j)] n.has(j) == o.has(j)
